@@ -35,6 +35,7 @@ func run(c *hlib.Ctx) {
 	runPolyRect(c)
 	runShells(c)
 	runRsProg(c) // last: keeps the random streams of the earlier kinds unchanged
+	runTriLine(c) // added after rsprog: the streams of all earlier kinds stay as they were
 }
 
 // ---------------------------------------------------------------- points and adapters
